@@ -105,10 +105,15 @@ def notify_ids(n_per_dest, dests=2):
             eg.values[1] = b"x"
             eg.values[2] = b"yz"
             eps = [H.IPv4EndpointOption(address=ipaddress.IPv4Address("10.0.0.1"), l4proto=H.L4Protocols.UDP, port=4000 + k) for k in range(dests)]   # one host, two ports
+            used = {id(ep): 0 for ep in eps}
             for k in range(n_per_dest):
                 for ep in eps[: 1 if k % 3 else dests]:
-                    # one, two or three notifications packed into one datagram
-                    await eg._notify_single(ep, [[1], [1], [1, 2], [2, 1, 1]][k % 4], "t")
+                    # one, two or three notifications packed into one datagram; close to the wrap single events until two
+                    # ids are left, then three events in one datagram: every destination has a datagram that STRADDLES its wrap
+                    rem = 65535 - used[id(ep)] % 65535
+                    evs = [1] if rem in (3, 4, 5) else [2, 1, 1] if rem in (1, 2) else [[1], [1], [1, 2], [2, 1, 1]][k % 4]
+                    used[id(ep)] += len(evs)
+                    await eg._notify_single(ep, evs, "t")
             return eps
         loop.run_until_complete(go())
         per = {}
